@@ -38,7 +38,8 @@ def mean (x : List (V3 K)) : V3 K :=
 
 /-- `sigma_x = 1/n · ‖x − mean_x‖_F²` (eq. 36) -/
 def var (x : List (V3 K)) : K :=
-  1 / cnt x * sumMap (fun p => V3.normSq (V3.sub p (mean x))) x
+  let m := mean x   -- evaluated once (the driver runs this on 2000 points)
+  1 / cnt x * sumMap (fun p => V3.normSq (V3.sub p m)) x
 
 /-- outer product `a·bᵀ` (`numpy.outer`) -/
 def outer (a b : V3 K) : M3 K :=
